@@ -1,4 +1,5 @@
 import EpModel.Driver.DecRender
+import EpModel.Spec.Decode
 /- `dec.*` operations: every decoding door of the model. -/
 namespace EpModel.Driver.Dec
 open EpModel EpModel.Driver EpModel.Dec EpModel.Driver.DecRender
@@ -35,8 +36,47 @@ def extsOut (g : Mem) (sm : Bool) (nh l : Nat) (r : ExtsOut) : String :=
       s!"s={w ⟨0, l - r.rest.l⟩},first={optNat first},iter={it}"
   s!"ok({body};next={r.next};frag={b01 r.frag};rest={w r.rest};stop={stop (r.stop.map (fun (e, ly) => (extErrToPErr e, ly)))})"
 
+def faultS (f : Spec.Fault) : String :=
+  let cls := match f.cls with
+    | .cutShort => "cutShort" | .claimsMore => "claimsMore" | .claimsLess => "claimsLess"
+    | .tooLong => "tooLong" | .content => "content"
+  let u := match f.unit with
+    | .eth => "eth" | .sll => "sll" | .vlan => "vlan" | .macsecHeader => "macsecHeader"
+    | .macsecPacket => "macsecPacket" | .ipAny => "ipAny" | .ipv4Header => "ipv4Header"
+    | .ipv4Packet => "ipv4Packet" | .ipv6Header => "ipv6Header" | .ipv6Packet => "ipv6Packet"
+    | .auth => "auth" | .hopByHop => "hopByHop" | .destOpts => "destOpts" | .route => "route"
+    | .fragHeader => "fragHeader" | .arp => "arp" | .udpHeader => "udpHeader"
+    | .udpPayload => "udpPayload" | .tcp => "tcp" | .icmp4 => "icmp4" | .icmp6 => "icmp6"
+  s!"fault(cls={cls},unit={u},off={f.off},avail={f.avail},need={f.need},lim={src f.lim},value={f.value})"
+
+def specStart (s : String) (et : Option Nat) : Option Spec.Start :=
+  match s, et with
+  | "eth", none => some .eth
+  | "sll", none => some .sll
+  | "ip", none => some .ip
+  | "et", some e => some (.etherType e)
+  | _, _ => none
+
+def specRun (lax : Bool) (st : Spec.Start) (b : Bytes) : String :=
+  let g := memOf b
+  if lax then
+    let (p, f) := Spec.decodeLax st g b.length
+    s!"{packet g p};fault={match f with | none => "none" | some f => faultS f}"
+  else
+    match Spec.decode st g b.length with
+    | .ok p => packet g p
+    | .error f => s!"err({faultS f})"
+
 def run (op : String) (args : List String) : Option String :=
   match op, args with
+  | "spec.dec.decode", [st, h] => do
+      let b ← argHex h; let st ← specStart st none; pure (specRun false st b)
+  | "spec.dec.decode", [st, et, h] => do
+      let b ← argHex h; let et ← argNat et; let st ← specStart st (some et); pure (specRun false st b)
+  | "spec.dec.decode_lax", [st, h] => do
+      let b ← argHex h; let st ← specStart st none; pure (specRun true st b)
+  | "spec.dec.decode_lax", [st, et, h] => do
+      let b ← argHex h; let et ← argNat et; let st ← specStart st (some et); pure (specRun true st b)
   -- whole packet: slices
   | "dec.sp_eth", [h] => do
       let b ← argHex h; let g := memOf b
